@@ -49,6 +49,9 @@ func (t *Tr) setupGhostStmts() {
 		switch {
 		case len(head) == 2 && head[0] == "at" && (head[1] == "entry" || head[1] == "return"):
 			gs.point = head[1]
+		case len(head) == 3 && head[0] == "at" && head[1] == "loop":
+			gs.point = "loop"
+			gs.callee = head[2]
 		case len(head) == 3 && (head[0] == "after" || head[0] == "before") && head[1] == "call":
 			gs.point = head[0]
 			gs.callee, gs.ord = splitOrd(head[2])
@@ -120,10 +123,19 @@ func (t *Tr) applyGhost(gs *ghostStmt, env *Env, st *State) {
 		t.unsup("ghost statement: %v", err)
 		return
 	}
-	val, err := env.expr(gs.val)
-	if err != nil {
-		t.unsup("ghost statement (%s:%d): %v", gs.cl.File, gs.cl.Line, err)
-		return
+	var val *SVal
+	if call, ok := gs.val.(*ECall); ok {
+		if id, ok := call.Fun.(*EIdent); ok && id.Name == "reset" && len(call.Args) == 0 {
+			// reset(): the ghost variable's initial value (all false / zero)
+			val = &SVal{t.ghostZero(cur.Ty), cur.Ty}
+		}
+	}
+	if val == nil {
+		val, err = env.expr(gs.val)
+		if err != nil {
+			t.unsup("ghost statement (%s:%d): %v", gs.cl.File, gs.cl.Line, err)
+			return
+		}
 	}
 	var idx []Term
 	for _, ie := range gs.idx {
@@ -401,7 +413,12 @@ func (t *Tr) callInner(instr ssa.Instruction, cc *ssa.CallCommon, pos token.Pos,
 	res := t.callResults(instr, rtypes, st)
 	// errors from well-known constructors are non-nil
 	if callee != nil && rtypes.Len() == 1 && isErrorCtor(callee.String()) {
-		t.c.fact(lt(tInt(0), res.T))
+		if strings.HasPrefix(callee.String(), "google.golang.org/grpc/status.Error") && len(cc.Args) > 0 {
+			// status.Error(codes.OK, ..) is nil
+			t.c.assert(implies(not(eq(t.term(cc.Args[0]), tInt(0))), lt(tInt(0), res.T)))
+		} else {
+			t.c.fact(lt(tInt(0), res.T))
+		}
 	}
 	t.assumeGlobalInvs(st, t.reach[t.curBlk])
 	return res
@@ -1133,4 +1150,13 @@ func (t *Tr) frameObligations() {
 		}
 		t.addObl("frame", k, t.fn.Pos(), tTrue, and(parts...), "nothing outside the modifies clause changes in "+k)
 	}
+}
+
+// ghostZero: the all-zero value of a ghost type (nested constant arrays).
+func (t *Tr) ghostZero(ty *SType) Term {
+	if ty.Key != nil {
+		s := t.c.sortOfS(ty)
+		return Term{fmt.Sprintf("((as const %s) %s)", s, t.ghostZero(ty.Val).S), s}
+	}
+	return t.c.zero(ty.Go)
 }
